@@ -56,6 +56,17 @@ def module_gates(info: dict) -> list[tuple]:
                                             for x in (n.body, n.orelse)):
                 gates.append(("switch", c[1], n.body.value, n.orelse.value))
                 consumed.add(id(n.test))
+    # the only source of the version is the run's settings: no other clock (sys.version_info, the module-level
+    # refurb.settings.get_python_version, which answers for the interpreter refurb runs on)
+    for n in ast.walk(tree):
+        if isinstance(n, ast.ImportFrom) and any(a.name in ("get_python_version", "version_info") for a in n.names):
+            raise TranslateError(f"{info['path']}:{n.lineno}: imports {[a.name for a in n.names]}: a version that is not the configured target")
+        if isinstance(n, ast.Name) and n.id in ("get_python_version", "version_info"):
+            raise TranslateError(f"{info['path']}:{n.lineno}: uses `{n.id}`, which is not the configured target version")
+        if isinstance(n, ast.Attribute) and n.attr == "version_info":
+            raise TranslateError(f"{info['path']}:{n.lineno}: uses `{ast.unparse(n)}`, which is not the configured target version")
+        if _is_version_call(n) and not (isinstance(n.func.value, ast.Name) and n.func.value.id == "settings"):
+            raise TranslateError(f"{info['path']}:{n.lineno}: `{ast.unparse(n)}` is not `settings.get_python_version()`")
     # every other mention of the version is outside the recognised shapes
     for n in ast.walk(tree):
         if isinstance(n, ast.Compare) and id(n) in consumed:
